@@ -7,6 +7,11 @@ use crate::{
     model::Model,
 };
 
+/// Variable names are case-insensitive (the printer writes a called variable in lower case).
+fn same_name(a: &str, b: &str) -> bool {
+    a.to_lowercase() == b.to_lowercase()
+}
+
 /// Recursively walks `node`, replacing every `NamedVariableKind { name, id: None }` whose
 /// name matches `target` with `id: Some(id)`.
 ///
@@ -14,7 +19,9 @@ use crate::{
 /// pair's value expression — the inner LET will assign its own id for subsequent uses.
 pub(super) fn assign_variable_ids(node: &mut Node, target: &str, id: u32) {
     match node {
-        Node::NamedVariableKind { name, id: var_id } if name == target && var_id.is_none() => {
+        Node::NamedVariableKind { name, id: var_id }
+            if same_name(name, target) && var_id.is_none() =>
+        {
             *var_id = Some(id);
         }
         Node::NamedFunctionKind {
@@ -22,7 +29,7 @@ pub(super) fn assign_variable_ids(node: &mut Node, target: &str, id: u32) {
             id: var_id,
             args,
         } => {
-            if name == target && var_id.is_none() {
+            if same_name(name, target) && var_id.is_none() {
                 *var_id = Some(id);
             }
             for arg in args.iter_mut() {
@@ -34,7 +41,7 @@ pub(super) fn assign_variable_ids(node: &mut Node, target: &str, id: u32) {
                 let n_pairs = (args.len().saturating_sub(1)) / 2;
                 // Find the first pair index where the inner LET shadows `target`.
                 let shadow_pair = (0..n_pairs).find(|&k| {
-                    matches!(&args[2 * k], Node::NamedVariableKind { name, .. } if name == target)
+                    matches!(&args[2 * k], Node::NamedVariableKind { name, .. } if same_name(name, target))
                 });
                 for i in 0..args.len() {
                     // Odd indices are value expressions; the last (even) index is the body.
@@ -75,7 +82,7 @@ pub(super) fn assign_variable_ids(node: &mut Node, target: &str, id: u32) {
         }
         Node::LambdaDefKind { parameters, body } => {
             // If a LAMBDA parameter shadows `target`, don't recurse into the body.
-            let shadowed = parameters.iter().any(|p| p.name == target);
+            let shadowed = parameters.iter().any(|p| same_name(&p.name, target));
             if !shadowed {
                 assign_variable_ids(body, target, id);
             }
